@@ -205,6 +205,7 @@ zLUMemInit(fact_t fact, void *work, int_t lwork, int m, int n, int_t annz,
     doublecomplex   *ucol;
     int_t    *usub, *xusub;
     int_t    nzlmax, nzumax, nzlumax;
+    int_t    top1_ptrs = 0; /* stack top after the pointer arrays (USER) */
     
     iword     = sizeof(int);
     dword     = sizeof(doublecomplex);
@@ -246,6 +247,11 @@ zLUMemInit(fact_t fact, void *work, int_t lwork, int m, int n, int_t annz,
 	    xlsub  = zuser_malloc((n+1) * iword, HEAD, Glu);
 	    xlusup = zuser_malloc((n+1) * iword, HEAD, Glu);
 	    xusub  = zuser_malloc((n+1) * iword, HEAD, Glu);
+	    if ( !xsup || !supno || !xlsub || !xlusup || !xusub ) {
+		/* work[] cannot even hold the pointer arrays */
+		return (zmemory_usage(nzlmax, nzumax, nzlumax, n) + n);
+	    }
+	    top1_ptrs = Glu->stack.top1;
 	}
 
 	lusup = (doublecomplex *) zexpand( &nzlumax, LUSUP, 0, 0, Glu );
@@ -261,8 +267,9 @@ zLUMemInit(fact_t fact, void *work, int_t lwork, int m, int n, int_t annz,
 		SUPERLU_FREE(lsub); 
 		SUPERLU_FREE(usub);
 	    } else {
-		zuser_free((nzlumax+nzumax)*dword+(nzlmax+nzumax)*iword,
-                            HEAD, Glu);
+		/* release whatever part of the four arrays was obtained,
+		   alignment padding included */
+		zuser_free(Glu->stack.top1 - top1_ptrs, HEAD, Glu);
 	    }
 	    nzlumax /= 2;
 	    nzumax /= 2;
